@@ -53,6 +53,12 @@ def run(ctx):
                 b.insert(pos, again)
                 if rnd.random() < 0.7:
                     b.insert(pos, T.I('Y', a=rnd.choice(T.DELTAS[1:])))
+    for p in progs:      # plain messages carrying a completion bundle as an argument
+        for b in p['routines'].values():
+            for i in b:
+                if i['op'] == 'M' and rnd.random() < 0.6:
+                    nl, nkind = rnd.choice(T.LATS)
+                    i['nk'], i['na'] = (2 if nkind == 1 else 1), nl
     nrt = [dict(p, main=[i for i in p['main'] if i['op'] != 'IN']) for p in progs]
     tn, tr, v = check(ctx, nrt, progs, MINE, sig, 'C07')
     ctx.cov['rule'] = ('%d seeded random routine programs with sends (latency in {0,1/8,1/4,1 s, None, -1/4 s}, plain messages, '
